@@ -169,6 +169,9 @@ def _history(F, ch, ctx, st):
     validator = ch.chance(30)
     marker = ch.bytes(16) if ch.chance(50) else b""
     metadata = {"k": "v"} if ch.chance(30) else None
+    if metadata is not None and ch.chance(15):
+        metadata["avro.schema"] = json.dumps({"type": "record", "name": "Stale", "fields": [{"name": "zz", "type": "string"}]})
+        metadata["avro.codec"] = ch.pick(common.CODECS)   # stale reserved entries taken over from another file
     if metadata is not None and ch.chance(12):
         metadata["big"] = "m" * ch.pick([65536, 70000])   # a header beyond 64 KiB
         ctx.probe("header_gt_64k")
